@@ -262,6 +262,38 @@ def register(cat):
 
     bad("T.scale_multi_mode_shape", "T", gen_scale_multi, lambda eng, ops, st: ops[0].scale(ttb.tensor(ops[1]) if ops[1].ndim > 1 else ops[1], np.array(st["dims"])), bad_scale_multi)
 
+    def gen_T_mask(c, r):
+        # a mask that is larger than the data in some mode, but whose nonzeros all lie inside the data
+        sh = shp(c.obj(r))
+        n = len(sh)
+        j = c.g.randrange(n)
+        msh = list(sh)
+        msh[j] = sh[j] + c.g.randint(1, 2)
+        for d in range(n):
+            if d != j and sh[d] > 1 and c.g.random() < 0.5:
+                msh[d] = sh[d] - 1
+        w = np.zeros(msh)
+        w[tuple(0 for _ in msh)] = 1.0
+        if all(m >= 2 for m in msh[:1]) and min(msh[0], sh[0]) >= 2:
+            w[(1,) + tuple(0 for _ in msh[1:])] = 1.0
+        return {"operands": [r, c.fresh(np.asfortranarray(w))], "sparse_mask": c.g.random() < 0.4}
+
+    def run_T_mask(eng, ops, st):
+        W = ttb.tensor(ops[1])
+        return ops[0].mask(W.to_sptensor() if st["sparse_mask"] else W)
+
+    bad("T.mask_shape", "T", gen_T_mask, run_T_mask, lambda ops, st: len(ops[1].shape) == ops[0].ndims and any(a > b for a, b in zip(ops[1].shape, shp(ops[0]))))
+
+    def gen_mttkrp_ktensor_order(c, r):
+        # the factors given as a Kruskal tensor with one mode more than the receiver (leading modes match)
+        sh = shp(c.obj(r))
+        rk = 2
+        mats = [np.asfortranarray(rand_array(c.g, (s, rk))) for s in sh] + [np.asfortranarray(rand_array(c.g, (c.g.randint(2, 3), rk)))]
+        return {"operands": [r] + [c.fresh(m) for m in mats], "n": c.g.choice([0, len(sh) - 1, c.g.randrange(len(sh))])}
+
+    for kind in ("T", "S", "K"):
+        bad(kind + ".mttkrp_ktensor_of_higher_order", kind, gen_mttkrp_ktensor_order, lambda eng, ops, st: ops[0].mttkrp(ttb.ktensor(list(ops[1:])), st["n"]), lambda ops, st: len(ops) - 1 != ops[0].ndims)
+
     def gen_contract(c, r):
         sh = shp(c.obj(r))
         pairs = [(i, j) for i in range(len(sh)) for j in range(len(sh)) if i != j and sh[i] != sh[j]]
